@@ -40,6 +40,7 @@ def walk_all(func_node: ast.AST) -> Iterator[ast.AST]:
         stack.extend(list(ast.iter_child_nodes(n))[::-1])
 
 
+LCOMP = (ast.ListComp, ast.GeneratorExp)  # a list comprehension consumed at once is canonically a generator expression
 _BINDERS = (ast.ListComp, ast.SetComp, ast.GeneratorExp, ast.DictComp, ast.Lambda)
 
 
@@ -57,10 +58,13 @@ def u(e: Optional[ast.AST]) -> str:
 
 def A(spec: str) -> str:
     """Alpha-normal form of an expression written in a rule (so `A("[c for c in x]") == u(node)` whatever the code calls c)."""
+    from .canon import Canon
     try:
-        return ua(ast.parse(spec, mode="eval").body)
+        tree = ast.parse(spec, mode="eval")
+        return ua(ast.fix_missing_locations(Canon().visit(tree)).body)
     except SyntaxError:
-        return ua(ast.parse(spec).body[0])
+        tree = ast.parse(spec)
+        return ua(ast.fix_missing_locations(Canon().visit(tree)).body[0])
 
 
 class _Alpha(ast.NodeTransformer):
@@ -528,3 +532,109 @@ def reaching_defs(func_node: ast.AST, name: str, target: ast.AST) -> List[Tuple[
     except Done:
         pass
     return found[0] if found else []
+
+
+# ------------------------------------------------------------------ effective value of a variable at a statement
+def _assigns(stmt: ast.stmt, target: str) -> bool:
+    """Does `stmt` (or anything nested in it, own scope) bind `target` (a name or dotted attribute text)?"""
+    for n in ast.walk(stmt):
+        if isinstance(n, (ast.Assign, ast.AnnAssign, ast.AugAssign)):
+            tg = n.targets if isinstance(n, ast.Assign) else [n.target]
+            for t in tg:
+                for x in ast.walk(t):
+                    if isinstance(x, (ast.Name, ast.Attribute)) and isinstance(getattr(x, "ctx", None), ast.Store) and ast.unparse(x) == target:
+                        return True
+        if isinstance(n, (ast.For, ast.comprehension)) and any(isinstance(x, ast.Name) and x.id == target for x in ast.walk(n.target)):
+            return True
+        if isinstance(n, (ast.With,)):
+            for it in n.items:
+                if it.optional_vars is not None and any(isinstance(x, ast.Name) and x.id == target for x in ast.walk(it.optional_vars)):
+                    return True
+    return False
+
+
+def value_cases(func_node: ast.AST, target: str, at: ast.stmt, pm: Optional[Dict] = None):
+    """The value `target` holds when control reaches statement `at`, as a complete case split over the `if`s between its
+    bindings and `at`:  [(conditions, value expression)], conditions being [(test, polarity)].  `x = a; if c: x = b` and
+    `if c: x = b / else: x = a` give the same cases.  None when a binding sits in a loop / try / with or is not a plain
+    assignment (the caller then cannot decide).  The conditions of `at` itself (its enclosing ifs) are not included."""
+    pm = pm or parents(func_node)
+    # the chain of statement lists from the function body down to `at`
+    chain = []
+    cur = at
+    while cur is not func_node:
+        par = pm.get(cur)
+        if par is None:
+            return None
+        for fld in ("body", "orelse", "finalbody"):
+            lst = getattr(par, fld, None)
+            if isinstance(lst, list) and any(s is cur for s in lst):
+                chain.append((par, lst, cur))
+        cur = par
+    # outermost block in which a binding of target precedes `at`
+    start = None
+    for par, lst, child in reversed(chain):
+        idx = next(i for i, s in enumerate(lst) if s is child)
+        if any(_assigns(s, target) for s in lst[:idx]):
+            start = (par, lst, child)
+            break
+    if start is None:
+        return None
+
+    def simulate(stmts, cases, stop):
+        for s in stmts:
+            if s is stop:
+                return cases, True
+            if isinstance(s, ast.Assign) and len(s.targets) == 1 and ast.unparse(s.targets[0]) == target:
+                cases = [([], s.value)]
+                continue
+            if isinstance(s, ast.AnnAssign) and s.value is not None and ast.unparse(s.target) == target:
+                cases = [([], s.value)]
+                continue
+            if isinstance(s, ast.If):
+                holds_stop = any(x is stop for x in ast.walk(s))
+                if not _assigns(s, target) and not holds_stop:
+                    continue
+                if holds_stop:
+                    # descend into the branch that leads to `at`
+                    for pol, body in ((True, s.body), (False, s.orelse)):
+                        if any(x is stop for b in body for x in ast.walk(b)):
+                            return simulate(body, cases, stop)
+                out = []
+                for pol, body in ((True, s.body), (False, s.orelse)):
+                    sub, _ = simulate(body, None if cases is None else [(list(c), v) for c, v in cases], stop)
+                    if sub is None:
+                        if any(_assigns(b, target) for b in body):
+                            return None, False
+                        continue
+                    for c, v in sub:
+                        out.append(([(s.test, pol)] + c if not any(t is s.test for t, _ in c) else c, v))
+                # a branch that does not assign keeps the incoming cases under its own polarity
+                cases = out
+                continue
+            if _assigns(s, target):
+                return None, False
+            if any(x is stop for x in ast.walk(s)):
+                # `at` sits inside a loop / with / try that follows the bindings: the value is the one on entry
+                body = [b for fld in ("body", "orelse", "finalbody") for b in (getattr(s, fld, None) or [])]
+                return simulate(body, cases, stop)
+        return cases, False
+
+    par, lst, child = start
+    cases, _ = simulate(lst, None, at)
+    return cases
+
+
+def cases_dict(func_node: ast.AST, target: str, at: ast.stmt, norm, pm: Optional[Dict] = None) -> Optional[Dict[str, str]]:
+    """value_cases as {condition in normal form: value text}; infeasible cases dropped; None when undecidable."""
+    from .algebra import bool_key, simplify
+    cs = value_cases(func_node, target, at, pm)
+    if cs is None:
+        return None
+    out = {}
+    for conds, v in cs:
+        g = simplify(norm.conj(conds))
+        if g == ("const", False):
+            continue
+        out[bool_key(g)] = u(v)
+    return out
